@@ -43,7 +43,7 @@ def tasks(tier, seed):
         for (rule, o) in sl[:4]:
             W = 2 if o.get("transfer") == "random" else None
             for fam in F.base4(False):
-                for sup in supports_of([fam], sizes=(2, 3, 4)):
+                for sup in supports_of([fam], sizes=(2, 3)):  # 4 shapes over 4 candidates: z3 answers unknown on some paths (2 h run)
                     for m in (1, 2, 3):
                         out.append(stv.mk_task(rule, m, o, sup, C.K4, ("c07",), nmax=8, W=W, weight=3 * len(sup), xval_stride=10))
     out.append(stv.mk_task("STV", 2, opt(True, "fractional", None), F.fam("A>B", "B>A", "C"), C.K3, ("c07",), nmax=6,
